@@ -183,50 +183,20 @@ fn free_stress(ctx: &mut Ctx, prop: &'static str, classes: &'static [&'static st
 
 // ------------------------------------------------------------------------------------- C02
 
+fn quick_budget(ctx: &mut Ctx) {
+    // the exhaustive <=3-file enumeration needs ~80 s on 16 cores (one large DFS dominates the tail)
+    if ctx.tier == Tier::Quick && std::env::var("VERIF_BUDGET").is_err() {
+        ctx.budget = std::time::Duration::from_secs(110);
+    }
+}
+
 fn run_c02(ctx: &mut Ctx) {
+    quick_budget(ctx);
     let shard = ctx.shard as u64;
     let mut r = StdRng::seed_from_u64(ctx.shard_seed());
     let cap = 20_000;
     let mut k = 0u64;
     ctx.exhaustive = Some(true);
-    // exhaustive part: n <= 3
-    'all: for n in 1..=3usize {
-        for mask in acyclic_masks(n) {
-            let kinds_variants: Vec<(u64, bool)> = match ctx.tier {
-                Tier::Quick => vec![(0, false), (mask & 0x1_5555_5555, true)],
-                Tier::Thorough => vec![(0, false), (mask, true), (mask & 0x1_5555_5555, true), (mask & 0xAAAA_AAAA, false)],
-            };
-            for (kinds, obs) in kinds_variants {
-                if kinds == 0 && obs {
-                    continue;
-                }
-                let mut selections: Vec<(Vec<usize>, u8)> = subsets(n).into_iter().map(|s| (s, 0u8)).collect();
-                selections.push(((0..n).collect(), 4));
-                for (req, style) in selections {
-                    for threads in 1..=3usize {
-                        k += 1;
-                        if !ctx.claim(k) {
-                            continue;
-                        }
-                        let mut case = GraphCase::new(n, mask);
-                        case.markers = k % 4 == 1;
-                        case.kinds = kinds;
-                        case.obs = obs;
-                        case.requested = req.clone();
-                        case.input_style = style;
-                        case.threads = threads;
-                        case.mode = if k % 5 == 0 { Mode::InMemoryBuild } else if k % 5 == 2 { Mode::Verify } else { Mode::Build };
-                        if matches!(case.mode, Mode::Verify) {
-                            case.stale = false; // correct outputs are planted: verify must pass under every schedule
-                        }
-                        if !dfs_case(ctx, "C02", C02_CLASSES, &case, cap, true, edge_count(mask) > 0) {
-                            break 'all;
-                        }
-                    }
-                }
-            }
-        }
-    }
     // 4 files: labelled DAGs, sampled subsets, sampled schedules
     let dags4 = acyclic_masks(4);
     ctx.count("dags_on_4_files", if shard == 0 { dags4.len() as u64 } else { 0 });
@@ -271,6 +241,47 @@ fn run_c02(ctx: &mut Ctx) {
     // 5-8 files, free-running stress
     let n = ctx.tier.pick(60, 1500);
     free_stress(ctx, "C02", C02_CLASSES, &mut r, n, true);
+    // exhaustive part: n <= 3
+    'all: for n in 1..=3usize {
+        for mask in acyclic_masks(n) {
+            let kinds_variants: Vec<(u64, bool)> = match ctx.tier {
+                Tier::Quick => vec![(0, false), (mask & 0x1_5555_5555, true)],
+                Tier::Thorough => vec![(0, false), (mask, true), (mask & 0x1_5555_5555, true), (mask & 0xAAAA_AAAA, false)],
+            };
+            for (kinds, obs) in kinds_variants {
+                if kinds == 0 && obs {
+                    continue;
+                }
+                let mut selections: Vec<(Vec<usize>, u8)> = subsets(n).into_iter().map(|s| (s, 0u8)).collect();
+                selections.push(((0..n).collect(), 4));
+                for (req, style) in selections {
+                    for threads in 1..=3usize {
+                        k += 1;
+                        if !ctx.claim(k) {
+                            continue;
+                        }
+                        let mut case = GraphCase::new(n, mask);
+                        case.markers = k % 4 == 1;
+                        case.kinds = kinds;
+                        case.obs = obs;
+                        case.requested = req.clone();
+                        case.input_style = style;
+                        case.threads = threads;
+                        case.mode = if k % 5 == 0 { Mode::InMemoryBuild } else if k % 5 == 2 { Mode::Verify } else { Mode::Build };
+                        if matches!(case.mode, Mode::Verify) {
+                            case.stale = false; // correct outputs are planted: verify must pass under every schedule
+                        }
+                        // directory input: half of the cases keep odd files in a sub-directory, so that a
+                        // file can be discovered as a dependency before its directory listing arrives
+                        case.subdirs = style == 4 && n >= 2 && k % 2 == 0;
+                        if !dfs_case(ctx, "C02", C02_CLASSES, &case, cap, true, edge_count(mask) > 0) {
+                            break 'all;
+                        }
+                    }
+                }
+            }
+        }
+    }
     ctx.sample(|| GraphCase::new(3, 0b000_001_110).to_json(&Spec::Controlled { strategy: Strategy::Dfs(vec![(1, 3), (0, 2)]), early_poll_at: None, eager_recv: false }));
 }
 
@@ -293,67 +304,13 @@ fn replay_c02(ctx: &mut Ctx, v: &Value) {
 // ------------------------------------------------------------------------------- C03 / C05
 
 fn digraph_enumeration(ctx: &mut Ctx, prop: &'static str, classes: &'static [&'static str], cyclic_only_nontrivial: bool) {
+    quick_budget(ctx);
     let shard = ctx.shard as u64;
     let shards = ctx.shards as u64;
     let mut r = StdRng::seed_from_u64(ctx.shard_seed());
     let cap = 20_000;
     let mut k = 0u64;
     ctx.exhaustive = Some(true);
-    'all: for n in 1..=3usize {
-        for mask in 0..(1u64 << (n * n)) {
-            let g = crate::gen::Graph::from_mask(n, mask, 0);
-            let cyclic = !g.is_acyclic();
-            let mut selections: Vec<(Vec<usize>, u8)> = vec![];
-            for s in subsets(n) {
-                selections.push((s.clone(), 0));
-                if ctx.tier == Tier::Thorough || s.len() == 1 {
-                    selections.push((s.clone(), 3)); // duplicates + aliases
-                }
-                if ctx.tier == Tier::Thorough {
-                    selections.push((s.clone(), 1));
-                }
-            }
-            selections.push(((0..n).collect(), 4));
-            selections.push(((0..n).collect(), 5));
-            // verify mode over `after`-only edges with self-consistent outputs on disk (style 9)
-            selections.push(((0..n).collect(), 9));
-            for s in subsets(n) {
-                if s.len() == 1 {
-                    selections.push((s, 9));
-                }
-            }
-            for (req, style) in selections {
-                let thread_set: &[usize] = if ctx.tier == Tier::Thorough { &[1, 2, 3] } else { &[1, 2] };
-                for &threads in thread_set {
-                    k += 1;
-                    if style == 5 && threads > 1 && n == 3 && ctx.tier == Tier::Quick {
-                        // two concurrent directory scans + 3 files + 2 threads: 40x the rest; thorough only
-                        ctx.exhaustive = Some(false);
-                        continue;
-                    }
-                    if !ctx.claim(k) {
-                        continue;
-                    }
-                    let mut case = GraphCase::new(n, mask);
-                    case.markers = k % 3 == 1;
-                    case.requested = req.clone();
-                    case.input_style = if style == 9 { 0 } else { style };
-                    if style == 9 {
-                        case.mode = Mode::Verify;
-                        case.stale = false;
-                        case.after_only = true;
-                    }
-                    case.threads = threads;
-                    case.kinds = if style == 9 { mask } else if k % 3 == 0 { mask & 0x1_5555_5555 } else { 0 };
-                    case.subdirs = n >= 2 && k % 7 == 0 && style != 9;
-                    let nontrivial = if cyclic_only_nontrivial { cyclic } else { n >= 2 || style >= 3 };
-                    if !dfs_case(ctx, prop, classes, &case, cap, true, nontrivial) {
-                        break 'all;
-                    }
-                }
-            }
-        }
-    }
     // 4 files: sampled digraphs
     let n4 = ctx.tier.pick(60u64, 4096);
     for i in 0..n4 {
@@ -374,8 +331,87 @@ fn digraph_enumeration(ctx: &mut Ctx, prop: &'static str, classes: &'static [&'s
         let cyclic = !case.graph().is_acyclic();
         sampled_schedules(ctx, prop, classes, &case, &mut r, 3, if cyclic_only_nontrivial { cyclic } else { true });
     }
+    // natural flavour with slow commands: a coordinator that stops waiting while tasks are still
+    // running shows as a missing final pass (no gate or blocking here: real timing)
+    for i in 0..ctx.tier.pick(2u64, 12) {
+        if !ctx.time_left() {
+            break;
+        }
+        let mut case = GraphCase::new(3, [0b000_001_010u64, 0b000_000_110, 0b000_001_110][(i % 3) as usize]);
+        case.slow_ms = 900;
+        case.markers = true;
+        case.threads = [1, 3][(i % 2) as usize];
+        case.input_style = [0, 4][((i / 2) % 2) as usize];
+        let spec = Spec::Natural { delay: None };
+        let run = exec(ctx, &case, spec.clone(), true);
+        account(ctx, &run);
+        ctx.count("natural_flavour_slow_command_executions", 1);
+        ctx.distinct.insert(case.hash() ^ run.trace_hash.rotate_left(13));
+        report(ctx, prop, classes, &case, &run, &spec);
+    }
     let n = ctx.tier.pick(40, 800);
     free_stress(ctx, prop, classes, &mut r, n, false);
+    'all: for n in 1..=3usize {
+        for mask in 0..(1u64 << (n * n)) {
+            let g = crate::gen::Graph::from_mask(n, mask, 0);
+            let cyclic = !g.is_acyclic();
+            let mut selections: Vec<(Vec<usize>, u8)> = vec![];
+            for s in subsets(n) {
+                selections.push((s.clone(), 0));
+                if ctx.tier == Tier::Thorough || s.len() == 1 {
+                    selections.push((s.clone(), 3)); // duplicates + aliases
+                }
+                if ctx.tier == Tier::Thorough {
+                    selections.push((s.clone(), 1));
+                }
+            }
+            selections.push(((0..n).collect(), 4));
+            selections.push(((0..n).collect(), 5));
+            // verify mode over `after`-only edges with self-consistent outputs on disk (style 9)
+            selections.push(((0..n).collect(), 9));
+            // a directory that one file's command removes before / while it is scanned (style 8)
+            selections.push(((0..n).collect(), 8));
+            for s in subsets(n) {
+                if s.len() == 1 {
+                    selections.push((s, 9));
+                }
+            }
+            for (req, style) in selections {
+                let thread_set: &[usize] = if ctx.tier == Tier::Thorough { &[1, 2, 3] } else { &[1, 2] };
+                for &threads in thread_set {
+                    k += 1;
+                    if style == 5 && threads > 1 && n == 3 && ctx.tier == Tier::Quick {
+                        // two concurrent directory scans + 3 files + 2 threads: 40x the rest; thorough only
+                        ctx.exhaustive = Some(false);
+                        continue;
+                    }
+                    if !ctx.claim(k) {
+                        continue;
+                    }
+                    let mut case = GraphCase::new(n, mask);
+                    case.markers = k % 3 == 1;
+                    case.requested = req.clone();
+                    case.input_style = if style == 9 { 0 } else if style == 8 { 4 } else { style };
+                    if style == 8 {
+                        case.vanish = true;
+                        case.markers = false;
+                    }
+                    if style == 9 {
+                        case.mode = Mode::Verify;
+                        case.stale = false;
+                        case.after_only = true;
+                    }
+                    case.threads = threads;
+                    case.kinds = if style == 9 { mask } else if k % 3 == 0 { mask & 0x1_5555_5555 } else { 0 };
+                    case.subdirs = n >= 2 && k % 7 == 0 && style != 9;
+                    let nontrivial = if cyclic_only_nontrivial { cyclic } else { n >= 2 || style >= 3 };
+                    if !dfs_case(ctx, prop, classes, &case, cap, true, nontrivial) {
+                        break 'all;
+                    }
+                }
+            }
+        }
+    }
 }
 
 fn run_c03(ctx: &mut Ctx) {
@@ -394,4 +430,46 @@ fn run_c05(ctx: &mut Ctx) {
 
 fn replay_c05(ctx: &mut Ctx, v: &Value) {
     replay_graph(ctx, "C05", C05_CLASSES, v)
+}
+
+
+/// Supplementary sanitizer workload (`vh stress`): free-running, natural and randomly controlled
+/// executions of random dependency graphs in one process, judged with the C02/C03 monitors. Meant
+/// to be run from a ThreadSanitizer build (`./check tsan`); prints a one-line summary.
+pub fn stress(iterations: usize, seed: u64) -> i32 {
+    let mut ctx = Ctx::new("C02", Tier::Quick, seed, 0, 1);
+    ctx.budget = std::time::Duration::from_secs(3600);
+    let mut r = StdRng::seed_from_u64(seed);
+    free_stress(&mut ctx, "C02", C02_CLASSES, &mut r, iterations, true);
+    free_stress(&mut ctx, "C03", C03_CLASSES, &mut r, iterations / 2, false);
+    for _ in 0..iterations / 2 {
+        let n = r.gen_range(2..=4);
+        let mut mask = 0u64;
+        for i in 0..n {
+            for j in (i + 1)..n {
+                if r.gen_bool(0.5) {
+                    mask |= 1 << (i * n + j);
+                }
+            }
+        }
+        let mut case = GraphCase::new(n, mask);
+        case.threads = r.gen_range(1..=4);
+        case.markers = false;
+        sampled_schedules(&mut ctx, "C02", C02_CLASSES, &case, &mut r, 2, true);
+    }
+    println!(
+        "stress: executions={} distinct_traces={} hook_events={} violations={}",
+        ctx.evals,
+        ctx.distinct.len(),
+        ctx.counters.get("hook_events").copied().unwrap_or(0),
+        ctx.violations.len()
+    );
+    for v in &ctx.violations {
+        println!("  [{}] {}", v.sig, v.message.lines().next().unwrap_or(""));
+    }
+    if ctx.violations.is_empty() {
+        0
+    } else {
+        1
+    }
 }
